@@ -182,7 +182,7 @@ func (s *Scheme) KeyGen(ctx context.Context, totalParties, threshold int) ([]byt
 		s.Send(uint8(MsgTypeSync), dkgTopicHash, msg, UniversalID(to))
 	})
 
-	dkgProtocolInstance := s.KeyGenFactory(uint16(s.SelfID))
+	dkgProtocolInstance := s.KeyGenFactory(uint16(membership.partyIDByUniversalID(s.SelfID)))
 
 	cleanup := s.initializeHandlers(dkgTopicHash, sync.HandleMessage, dkgProtocolInstance.ClassifyMsg)
 	defer cleanup()
@@ -309,7 +309,7 @@ func (s *Scheme) runDKG(ctx context.Context, membership *membership, dkgProtocol
 
 		s.Logger.Debugf("Running keygen with parties %v", members)
 
-		if err := s.initializeDKG(dkgProtocolInstance, t, UIntsToUniversalIDs(members), membership); err != nil {
+		if err := s.initializeDKG(dkgProtocolInstance, t, UIntsToUniversalIDs(members), parties, membership); err != nil {
 			s.Logger.Errorf("Failed initializing DKG: %v", err)
 			resultChan <- mpcResult{err: err}
 			return
@@ -415,7 +415,7 @@ func (s *Scheme) ensureDKGNotRunning() error {
 }
 
 func (s *Scheme) ThresholdPK() ([]byte, error) {
-	signer := s.SignerFactory(uint16(s.SelfID))
+	signer := s.SignerFactory(uint16(computeMembership(s.Membership()).partyIDByUniversalID(s.SelfID)))
 	if err := signer.SetShareData(s.StoredData); err != nil {
 		s.Logger.Errorf("Failed setting share data: %v", err)
 		return nil, err
@@ -625,12 +625,12 @@ func (s *Scheme) prepareSigning(membership *membership, parties []PartyID, topic
 	return signingProtocol, signingProtocol.SetShareData(s.StoredData)
 }
 
-func (s *Scheme) initializeDKG(dkg KeyGenerator, threshold int, members []UniversalID, membership *membership) error {
+func (s *Scheme) initializeDKG(dkg KeyGenerator, threshold int, members []UniversalID, parties []PartyID, membership *membership) error {
 	membersWithoutMe := excludeUniversal(members, s.SelfID)
 
 	dkgTopicHash := hash([]byte(DkgTopicName))
 
-	dkg.Init(universalIDsToUInts(members), threshold, func(msg []byte, isBroadcast bool, to uint16) {
+	dkg.Init(partyIDsToUInts(parties), threshold, func(msg []byte, isBroadcast bool, to uint16) {
 		var payload []byte
 		payload = append(payload, 255)
 		payload = append(payload, msg...)
@@ -645,7 +645,7 @@ func (s *Scheme) initializeDKG(dkg KeyGenerator, threshold int, members []Univer
 }
 
 func (s *Scheme) initializeThresholdSigning(membership *membership, parties []PartyID, topicHash []byte, signers []UniversalID) (Signer, error) {
-	signer := s.SignerFactory(uint16(s.SelfID))
+	signer := s.SignerFactory(uint16(membership.partyIDByUniversalID(s.SelfID)))
 	if err := signer.SetShareData(s.StoredData); err != nil {
 		s.Logger.Errorf("Failed setting share data: %v", err)
 		return nil, err
